@@ -39,9 +39,207 @@ def _related(a, b):
     return ta[:n] == tb[:n]
 
 
-# tags the driver attaches to a failing modify/restore case (descriptive, see Driver/C14.lean: modifyTags)
-_A = {"absent", "newkeys"}                 # something that did not exist is recorded as Empty and restored as explicit null
-_B = {"below", "again"}                    # a path at or below an already modified path is modified again
+def _hex(s):
+    b = s.encode("utf-8")
+    return b.hex() if b else "-"
+
+
+def _jhex(v):
+    return _hex(json.dumps(v, separators=(",", ":"), ensure_ascii=True))
+
+
+def _junhex(h):
+    return json.loads(_unhex(h))
+
+
+class _Witness:
+    """A modify/restore case with the implementation's observations (lines as the harness printed them)."""
+
+    def __init__(self, lines):
+        self.init = _junhex(lines[0].split()[2])
+        self.ops = []
+        for l in lines[1:]:
+            pre, _, post = l.partition(" | ")
+            w, o = pre.split(), post.split()
+            if not w or w[0] not in ("M", "R") or len(o) < 3:
+                continue
+            self.ops.append({"kind": w[0], "attr": _unhex(w[1]), "value": _junhex(w[2]) if w[0] == "M" else None,
+                             "ok": o[0] == "1", "fields": _junhex(o[1]), "orig": _junhex(o[2])})
+
+    def lines(self):
+        out = ["C M " + _jhex(self.init)]
+        for op in self.ops:
+            out.append("M %s %s" % (_hex(op["attr"]), _jhex(op["value"])) if op["kind"] == "M" else "R " + _hex(op["attr"]))
+        return out
+
+    def before(self, i):
+        """(attribute tree, original_attributes) the implementation reported before operation i"""
+        if i == 0:
+            return self.init, None
+        return self.ops[i - 1]["fields"], self.ops[i - 1]["orig"]
+
+
+def _get(tree, toks):
+    cur = tree
+    for k in toks:
+        if not isinstance(cur, dict) or k not in cur:
+            return False, None
+        cur = cur[k]
+    return True, cur
+
+
+def _has_dotted(v):
+    if isinstance(v, dict):
+        return any("." in k or _has_dotted(x) for k, x in v.items())
+    if isinstance(v, list):
+        return any(_has_dotted(x) for x in v)
+    return False
+
+
+def _undot(v):
+    if isinstance(v, dict):
+        return {k.replace(".", "_"): _undot(x) for k, x in v.items()}
+    if isinstance(v, list):
+        return [_undot(x) for x in v]
+    return v
+
+
+def _populate(tree, toks):
+    """make `toks` exist below the dictionary `tree` (value 0) without overwriting anything; False if impossible"""
+    cur = tree
+    for k in toks[:-1]:
+        if k not in cur or cur[k] is None:
+            cur[k] = {}
+        if not isinstance(cur[k], dict):
+            return False
+        cur = cur[k]
+    cur.setdefault(toks[-1], 0)
+    return True
+
+
+def _hazards(w):
+    """The recorded hazards present in a witness, from the implementation's own observations:
+       ("dotkey", i)             the dictionary overwritten by modify i has a key containing '.'          (F-C14g)
+       ("absent", i, [paths])    modify i targets a path that does not exist / its new dictionary value has keys the
+                                 old dictionary lacks (`paths` = what would have to exist)                  (F-C14a)
+       ("emptydict", i, [path])  modify i overwrites an empty dictionary with a non-dictionary            (F-C14d)
+       ("below", i)              modify i is on a branch (at, below or above) for which nested originals are already
+                                 recorded: they stem from another context than the one the new entry is recorded in (F-C14b)"""
+    hz = []
+    for i, op in enumerate(w.ops):
+        if op["kind"] != "M" or not op["ok"]:
+            continue
+        toks = op["attr"].split(".")
+        prev, orig = w.before(i)
+        ex, old = _get(prev, toks)
+        if not ex:
+            hz.append(("absent", i, [toks]))
+        elif len(toks) > 1 and isinstance(old, dict):
+            if any("." in k for k in old):
+                hz.append(("dotkey", i))
+            new = [k for k in op["value"]] if isinstance(op["value"], dict) else []
+            missing = [toks + [k] for k in new if k not in old]
+            if missing:
+                hz.append(("absent", i, missing))
+            elif not old:
+                hz.append(("emptydict", i, [toks + ["_"]]))
+        if isinstance(orig, dict) and len(toks) > 1:
+            for key in orig:
+                kt = key.split(".")
+                n = min(len(kt), len(toks))
+                if len(kt) > 1 and kt[:n] == toks[:n]:
+                    hz.append(("below", i))
+                    break
+    return hz
+
+
+_HAZARD_CLASS = {"dotkey": "dotted-key-flattened", "absent": "absent-recorded-as-null",
+                 "emptydict": "old-value-empty-dictionary", "below": "modified-below-modified"}
+_HAZARD_ORDER = ["dotkey", "absent", "emptydict", "below"]
+
+
+def _repair(w, hz):
+    """Repair ONE recorded hazard in the witness, keeping the operations and their paths; returns the new lines or None.
+       dotkey    -> the dots in dictionary keys become '_' (initial tree and every value)
+       absent /
+       emptydict -> the missing path is made to exist beforehand (value 0): in the initial tree and in every earlier
+                    dictionary value written at a prefix of it
+       below     -> the modifications made before operation i become part of the configuration: the case restarts
+                    from the tree observed before i, on a never-modified object, with the remaining operations"""
+    import copy
+    kind, i = hz[0], hz[1]
+    n = copy.deepcopy(w)
+    if kind == "dotkey":
+        n.init = _undot(n.init)
+        for op in n.ops:
+            if op["kind"] == "M":
+                op["value"] = _undot(op["value"])
+        return n.lines()
+    if kind in ("absent", "emptydict"):
+        okay = False
+        for path in hz[2]:
+            if path[0] in n.init:
+                if n.init[path[0]] is None and len(path) > 1:
+                    n.init[path[0]] = {}
+                if len(path) > 1 and isinstance(n.init[path[0]], dict):
+                    okay = _populate(n.init[path[0]], path[1:]) or okay
+            for op in n.ops[:i]:
+                if op["kind"] != "M" or not isinstance(op["value"], dict):
+                    continue
+                q = op["attr"].split(".")
+                if len(q) < len(path) and path[:len(q)] == q:
+                    okay = _populate(op["value"], path[len(q):]) or okay
+        return n.lines() if okay else None
+    if kind == "below":
+        if i == 0:
+            return None
+        n.init = copy.deepcopy(w.before(i)[0])
+        n.ops = n.ops[i:]
+        return n.lines()
+    return None
+
+
+def _retype(v):
+    if isinstance(v, dict):
+        return {("type_" if k == "type" else k): _retype(x) for k, x in v.items()}
+    if isinstance(v, list):
+        return [_retype(x) for x in v]
+    return v
+
+
+def _has_type(v):
+    if isinstance(v, dict):
+        return "type" in v or any(_has_type(x) for x in v.values())
+    if isinstance(v, list):
+        return any(_has_type(x) for x in v)
+    return False
+
+
+def _s_hazards(spec):
+    """("typekey",): a dictionary with a `type` key inside the generated state (F-C14c);
+       ("moddump", j): modification j installs a non-empty dictionary at a path that a later modification overwrites (F-C14e)"""
+    hz = []
+    if _has_type(spec.get("st")):
+        hz.append(("typekey",))
+    mods = spec.get("mods") or []
+    for j, a in enumerate(mods):
+        if isinstance(a[1], dict) and a[1] and any(b[0] == a[0] for b in mods[j + 1:]):
+            hz.append(("moddump", j))
+            break
+    return hz
+
+
+def _s_repair(spec, hz):
+    import copy
+    n = copy.deepcopy(spec)
+    if hz[0] == "typekey":
+        n["st"] = _retype(n["st"])
+    elif hz[0] == "moddump":
+        n["mods"][hz[1]][1] = "x"
+    return n
+
+
+_S_CLASS = {"typekey": "type-key-in-state", "moddump": "modattr-dump"}
 
 
 class C14(Check):
@@ -49,7 +247,7 @@ class C14(Check):
     required_theorems = ["modify_restore_partial", "modify_restore_absent_counterexample", "modify_restore_below_counterexample",
                          "modify_restore_emptydict_counterexample", "restore_clears_original", "modify_restore_meets_spec_partial",
                          "serialize_id", "deserialize_id_partial", "state_roundtrip_partial", "state_roundtrip_counterexample",
-                         "crash_old_or_new", "complete_write_reads_new", "atomic_write_conforms"]
+                         "crash_old_or_new", "complete_write_reads_new", "crash_leaves_only_tmp", "atomic_write_conforms"]
     technique = ("Lean 4 proof (round-trip law composed with C20's JSON/netstring theorems, algebra of modify/restore on value trees, invariant over "
                  "the system-call sequence of AtomicFile under an adversarial crash model) about hand-written executable models; correspondence by "
                  "differential execution of the real ModifyAttribute/RestoreAttribute, DumpObjects -> fresh process -> RestoreObjects + modified-attributes "
@@ -59,9 +257,10 @@ class C14(Check):
                   "for every list of objects whose state trees name only registered types in `type` keys and EVERY chunking of the state file, reading the frames, "
                   "JSON-decoding and deserialising onto freshly created objects yields exactly the dumped state (C20's json_roundtrip and "
                   "frames_split_regardless_of_chunking composed with Serialize/Deserialize); for every prefix of AtomicFile's system-call sequence and every crash "
-                  "view (any earlier directory state, arbitrary contents of unsynced files) the target path reads as the complete old or the complete new content. "
-                  " The full statements are false of the pinned code in four ways, each carried as a kernel-checked counterexample "
-                  "and replayed on the real code on every run (known findings). The models are tied to the code by running the real functions on the same inputs "
+                  "view (any earlier directory state, arbitrary contents of unsynced files) the target path reads as the complete old or the complete new content, and the only new name left behind is the temp file. "
+                  " The full statements are false of the pinned code in several ways (F-C14a-e,g), carried as kernel-checked counterexamples "
+                  "and/or corpus witnesses replayed on the real code on every run; EVERY failing generated case is minimised and attributed to a known finding only "
+                  "if repairing that recorded hazard in the minimised witness and re-running makes the failure vanish. The models are tied to the code by running the real functions on the same inputs "
                   "and diffing every observation; the specification predicates are evaluated on the implementation's own observations")
     level_note = ("Trusted: Lean kernel (+ propext, Classical.choice, Quot.sound), sampled correspondence, harness/driver, the kernel's rename atomicity and fsync "
                   "durability (parameters of the crash model). Assumed, fuzzed by C20: binary64 <-> text. Not modelled: ConfigWriter/DSL round trip of the "
@@ -89,7 +288,7 @@ class C14(Check):
             "DumpModifiedAttributes and AtomicFile::Write, a forked child dies inside it, the parent reads the file and loads it with the real loader in another child. "
             "evaluations = operations + restarts + kills; a case is non-trivial (distinct by hash of its operation lines, counted by the Lean driver) when it restored a "
             "modified path, went through a restart, or is a write with kill points")
-    max_groups = 150
+    _last_driver = []
 
     # ---- plumbing
 
@@ -109,9 +308,11 @@ class C14(Check):
         try:
             out = self._run([harness, "ops", f], driver, self.work("shrink.out"))
         except core.TieBroken:
+            self._last_driver = []
             return False, [], []
         shown = open(self.work("shrink.out"), errors="replace").read().splitlines()
         hit = [l for l in out if l.startswith(want_prefix) and want_sub in l]
+        self._last_driver = out
         return bool(hit), shown, hit
 
     def _shrink_m(self, harness, driver, case, fail_line_idx, prefix, sub=""):
@@ -128,52 +329,215 @@ class C14(Check):
         _, shown, hit = self._try(harness, driver, hdr + ops, prefix, sub)
         return shown, hit
 
+    def _batch(self, harness, driver, witnesses):
+        """Run many modify/restore cases (lists of operation lines, first = `C M`) in ONE harness+driver run.
+        Returns per case: (lines with the implementation's observations, driver lines about that case)."""
+        if not witnesses:
+            return []
+        f = self.work("batch.ops")
+        with open(f, "w") as fh:
+            for w in witnesses:
+                fh.write("\n".join(runner.strip_obs(l) for l in w) + "\n")
+        out = self._run([harness, "ops", f], driver, self.work("batch.out"))
+        shown = _cases(self.work("batch.out"))
+        per = {}
+        for l in out:
+            if l.startswith(("SPECFAIL", "MISMATCH", "BADLINE")):
+                per.setdefault(int(core.parse_kv(l).get("case", "0")), []).append(l)
+        if len(shown) != len(witnesses):
+            raise core.TieBroken("harness:c14:batch", f"{len(witnesses)} cases in, {len(shown)} out")
+        return [(shown[i], per.get(i + 1, [])) for i in range(len(witnesses))]
+
     @staticmethod
-    def _tags(driver_line):
-        t = core.parse_kv(driver_line).get("tags", "none")
-        return set() if t == "none" else set(t.split("+"))
+    def _spec_fails(dl, clause):
+        return any(l.startswith("SPECFAIL") and ("clause=" + clause) in l for l in dl)
+
+    def _minimise_all(self, harness, driver, failing):
+        """failing: list of (case lines, index of the failing line, clause).  Every failing case is reduced to the
+        operations on paths related to the failing restore and then minimised by single deletions until 1-minimal,
+        all candidates of a round in one batch.  Returns ({witness tuple: [clause, occurrences]}, [unreproducible])."""
+        cand, clause_of, count = [], {}, {}
+        for case, idx, clause in failing:
+            hdr, ops = case[:1], case[1:idx + 1]
+            target = _unhex(runner.strip_obs(ops[-1]).split()[1]) if ops else ""
+            rel = [l for l in ops if _related(_unhex(runner.strip_obs(l).split()[1]), target)]
+            cand.append((tuple(runner.strip_obs(l) for l in hdr + rel), tuple(runner.strip_obs(l) for l in hdr + ops), clause))
+        firsts = sorted({c[0] for c in cand})
+        res = dict(zip(firsts, self._batch(harness, driver, [list(w) for w in firsts])))
+        fallback = sorted({c[1] for c in cand if not self._spec_fails(res[c[0]][1], c[2])})
+        res2 = dict(zip(fallback, self._batch(harness, driver, [list(w) for w in fallback])))
+        current, lost = {}, []
+        for red, full, clause in cand:
+            if self._spec_fails(res[red][1], clause):
+                w = red
+            elif self._spec_fails(res2[full][1], clause):
+                w = full
+            else:
+                lost.append((list(full), clause))
+                continue
+            current.setdefault(w, [clause, 0])[1] += 1
+        for _ in range(12):
+            variants, owner = [], []
+            for w in current:
+                if len(w) <= 2:
+                    continue
+                for j in range(1, len(w)):
+                    variants.append(list(w[:j] + w[j + 1:]))
+                    owner.append(w)
+            if not variants:
+                break
+            out = self._batch(harness, driver, variants)
+            smaller = {}
+            for v, o, (_, dl) in zip(variants, owner, out):
+                if o not in smaller and self._spec_fails(dl, current[o][0]):
+                    smaller[o] = tuple(v)
+            if not smaller:
+                break
+            nxt = {}
+            for w, (clause, n) in current.items():
+                k = smaller.get(w, w)
+                if k in nxt:
+                    nxt[k][1] += n
+                else:
+                    nxt[k] = [clause, n]
+            current = nxt
+        return current, lost
+
+    def _attribute_all(self, harness, driver, witnesses):
+        """Attribute MINIMISED witnesses to recorded findings by repair-and-rerun: in each round ONE recorded hazard
+        present in the witness (fixed order: dotted key, absent path/new keys, empty dictionary, modification at or
+        below a modified path) is repaired and the witness re-run; a witness is explained by the hazards repaired
+        iff the failure then vanishes (no SPECFAIL, MISMATCH or BADLINE).  Returns {witness: (classes or [], trail, lines with obs)}."""
+        ws = list(witnesses)
+        obs = self._batch(harness, driver, [list(w) for w in ws])
+        state = {w: {"lines": o[0], "classes": [], "trail": [], "done": False, "ok": False, "shown": o[0]} for w, o in zip(ws, obs)}
+        for _ in range(4):
+            todo, reps = [], []
+            for w in ws:
+                st = state[w]
+                if st["done"]:
+                    continue
+                try:
+                    wit = _Witness(st["lines"])
+                    hz = sorted(_hazards(wit), key=lambda h: (_HAZARD_ORDER.index(h[0]), h[1]))
+                except Exception:
+                    hz = []
+                rep = None
+                for h in hz:
+                    rep = _repair(wit, h)
+                    if rep is not None and tuple(rep) != tuple(runner.strip_obs(l) for l in st["lines"]):
+                        break
+                    rep = None
+                if rep is None:
+                    st["done"] = True
+                    continue
+                st["trail"].append("%s@%d" % (h[0], h[1]))
+                if _HAZARD_CLASS[h[0]] not in st["classes"]:
+                    st["classes"].append(_HAZARD_CLASS[h[0]])
+                todo.append(w)
+                reps.append(rep)
+            if not todo:
+                break
+            for w, (lines, dl) in zip(todo, self._batch(harness, driver, reps)):
+                st = state[w]
+                if any(l.startswith(("MISMATCH", "BADLINE")) for l in dl):
+                    st["done"] = True
+                elif not any(l.startswith("SPECFAIL") for l in dl):
+                    st["done"], st["ok"] = True, True
+                else:
+                    st["lines"] = lines
+        return {w: ((st["classes"] if st["ok"] else []), st["trail"], st["shown"]) for w, st in state.items()}
+
+    def _attribute_s(self, harness, driver, line, clause):
+        classes, trail = [], []
+        try:
+            spec = _junhex(runner.strip_obs(line).split()[1])
+        except Exception:
+            return [], trail
+        for _ in range(3):
+            hz = [h for h in _s_hazards(spec) if h[0] not in trail]
+            if not hz:
+                return [], trail
+            spec = _s_repair(spec, hz[0])
+            trail.append(hz[0][0])
+            classes.append(_S_CLASS[hz[0][0]])
+            fails, shown, _ = self._try(harness, driver, ["S " + _jhex(spec)], "SPECFAIL", "")
+            if not shown or any(l.startswith(("MISMATCH", "BADLINE")) for l in self._last_driver):
+                return [], trail
+            if not fails:
+                return classes, trail
+        return [], trail
 
     def _collect(self, res, lines, save, harness, driver, origin):
         bad = [l for l in lines if l.startswith("BADLINE")]
         if bad:
             res.corr_failures.append(runner.Finding("corr", "protocol", bad[:5], {"origin": origin}))
-        cases = None
         spec = [l for l in lines if l.startswith("SPECFAIL")]
         mism = [l for l in lines if l.startswith("MISMATCH")]
+        cases, starts = None, []
         if spec or mism:
             cases = _cases(save)
-            starts, pos = [], 1
+            pos = 1
             for c in cases:
                 starts.append(pos)
                 pos += len(c)
-        # specification failures on the implementation's trace: one representative per tag set, minimised
-        groups = {}
+        # Specification failures on the implementation's trace.  EVERY failing modify/restore case is minimised
+        # (batched) and attributed by repair-and-rerun; what cannot be reproduced in isolation, minimised or
+        # attributed is reported as it is (class `other` -> VIOLATION).  Nothing is classified from unminimised data.
+        failing_m, others = [], []
         for l in spec:
             kv = core.parse_kv(l)
-            groups.setdefault((kv.get("clause", "?"), kv.get("tags", "none")), []).append(l)
-        done = 0
-        for (clause, tags), ls in sorted(groups.items(), key=lambda g: (len(g[0][1].split("+")), g[0])):
-            kv = core.parse_kv(ls[0])
             cno = int(kv["case"])
             case = cases[cno - 1] if 0 < cno <= len(cases) else []
-            final_tags = self._tags(ls[0])
-            shown = case
-            minimised = False
-            if case and case[0].startswith("C M ") and done < self.max_groups:
-                done += 1
-                idx = int(kv["line"]) - starts[cno - 1]
-                shown, hit = self._shrink_m(harness, driver, case, idx, "SPECFAIL", "clause=" + clause)
-                if hit:
-                    final_tags = self._tags(hit[0])
-                    minimised = True
-            elif case and not case[0].startswith("C M "):
-                minimised = True   # an S case is one line, a K failure is reported with its W line
-                shown = [case[0]] + [c for c in case[1:] if c.startswith("K ") and int(kv["line"]) - starts[cno - 1] == case.index(c)]
-            cls = self.classify(clause, final_tags)
+            if not case:
+                continue
+            idx = int(kv["line"]) - starts[cno - 1]
+            if case[0].startswith("C M "):
+                failing_m.append((case, idx, kv.get("clause", "?")))
+            else:
+                others.append((l, kv, case, idx))
+        by_class = {}
+        if failing_m:
+            minimal, lost = self._minimise_all(harness, driver, failing_m)
+            attributed = self._attribute_all(harness, driver, minimal)
+            for w, (clause, n) in minimal.items():
+                classes, trail, shown = attributed[w]
+                cls = "+".join(classes) if classes else "other"
+                g = by_class.setdefault((clause, cls), {"classes": classes, "shown": shown, "n": 0, "witnesses": 0, "trail": trail, "extra": []})
+                g["n"] += n
+                g["witnesses"] += 1
+                if not classes and g["witnesses"] > 1 and len(g["extra"]) < 4:
+                    g["extra"].append(shown)
+            for full, clause in lost[:3]:
+                res.spec_failures.append(runner.Finding("spec", f"spec:C14:{clause}:other", full,
+                                                        {"origin": origin, "note": "fails in its run but not in isolation: not attributed"},
+                                                        {"clause": clause, "classes": []}))
+        for (clause, cls), g in sorted(by_class.items()):
             res.spec_failures.append(runner.Finding(
-                "spec", f"spec:C14:{clause}:{cls}", shown,
-                {"driver": ls[0], "occurrences": len(ls), "origin": origin, "minimised": minimised},
-                {"clause": clause, "tags": sorted(final_tags), "class": cls}))
+                "spec", f"spec:C14:{clause}:{cls}", g["shown"],
+                {"origin": origin, "minimised": True, "failing_cases": g["n"], "distinct_minimal_witnesses": g["witnesses"],
+                 "repairs": g["trail"], "further_unattributed_witnesses": g["extra"]},
+                {"clause": clause, "classes": g["classes"]}))
+        s_groups = {}
+        for l, kv, case, idx in others:
+            clause = kv.get("clause", "?")
+            if case[0].startswith("S "):
+                classes, trail = self._attribute_s(harness, driver, case[0], clause)
+                shown = case[:1]
+            else:
+                classes, trail = [], []
+                shown = [case[0]] + [c for k, c in enumerate(case) if k == idx and k > 0]
+            cls = "+".join(classes) if classes else "other"
+            g = s_groups.setdefault((clause, cls), {"classes": classes, "shown": shown, "n": 0, "trail": trail, "driver": l, "extra": []})
+            g["n"] += 1
+            if not classes and g["n"] > 1 and len(g["extra"]) < 4:
+                g["extra"].append(shown)
+        for (clause, cls), g in sorted(s_groups.items()):
+            res.spec_failures.append(runner.Finding(
+                "spec", f"spec:C14:{clause}:{cls}", g["shown"],
+                {"driver": g["driver"], "origin": origin, "minimised": True, "failing_cases": g["n"], "repairs": g["trail"],
+                 "further_unattributed_witnesses": g["extra"]},
+                {"clause": clause, "classes": g["classes"]}))
         # disagreements between model and implementation
         seen = set()
         for l in mism:
@@ -189,63 +553,20 @@ class C14(Check):
                 shown, _ = self._shrink_m(harness, driver, case, idx, "MISMATCH")
             res.corr_failures.append(runner.Finding("corr", "observation:" + kv.get("op", "?"), shown[:40], {"driver": l, "origin": origin}))
 
-    @staticmethod
-    def classify(clause, tags):
-        """Root cause of a failing witness from the driver's descriptive tags ('other' = not a recorded defect)."""
-        if clause == "restoreIdentity":
-            if {"toprestore", "restoreunmodified"} <= tags and tags <= {"toprestore", "restoreunmodified", "absent", "above", "again"}:
-                return "restore-unmodified-toplevel"
-            if "dotkey" in tags and tags <= {"olddict", "dotkey"}:
-                return "dotted-key-flattened"
-            if "newkeys" in tags and tags <= {"olddict", "oldemptydict", "newkeys"}:
-                return "absent-recorded-as-null"   # {} -> {k: v}: the new keys are recorded as Empty
-            if "oldemptydict" in tags and tags <= {"olddict", "oldemptydict", "again"}:
-                return "old-value-empty-dictionary"
-            if tags & _A and tags <= _A | {"olddict"}:
-                return "absent-recorded-as-null"
-            if "below" in tags and tags <= _B | {"olddict", "above"}:
-                return "modified-below-modified"
-            if {"again", "olddict"} <= tags and tags <= _B | {"olddict", "above"}:
-                return "modified-below-modified"
-            # both root causes in one minimal witness: an absent key below (or at) an already modified path
-            # (also with an incidental restore of an unmodified path that made the key absent)
-            if tags & _A and tags <= _A | _B | {"olddict", "above", "restoreunmodified", "toprestore"}:
-                return "absent-recorded-as-null"
-            # re-modification at/below a modified path with incidental features of the intermediate dictionary
-            if ("below" in tags or {"again", "olddict"} <= tags) and \
-                    tags <= _A | _B | {"olddict", "above", "oldemptydict", "dotkey", "restoreunmodified"}:
-                return "modified-below-modified"
-            return "other"
-        if clause == "stateRoundtrip":
-            if tags == {"typekey"}:
-                return "type-key-in-state"
-            if tags == {"config"}:
-                return "modattr-dump"
-            return "other"
-        return "other"
-
     def matches_known(self, entry, finding):
-        d = finding.classifier_data
-        if not d or d.get("class") == "other":
+        classes = (finding.classifier_data or {}).get("classes") or []
+        # every hazard that had to be repaired must be a recorded (status known) finding; this entry is one of them
+        names = {"c14_" + c.replace("-", "_") for c in classes}
+        if not names or entry.get("classifier") not in names:
             return False
-        if entry.get("classifier") != "c14_" + d["class"].replace("-", "_"):
-            return False
-        if d["class"] == "modattr-dump":
-            # narrow: the single S line must carry two modifications of one path, the first installing a dictionary
-            try:
-                spec = json.loads(_unhex(runner.strip_obs(finding.case_lines[0]).split()[1]))
-                mods = spec.get("mods") or []
-                return any(a[0] == b[0] and isinstance(a[1], dict) and a[1] for i, a in enumerate(mods) for b in mods[i + 1:])
-            except Exception:
-                return False
-        return True
+        known = {e.get("classifier") for e in core.known_findings(self.prop) if e.get("status") == "known"}
+        return names <= known
 
     # ---- the run
 
     def correspondence(self, tier, seed, harness, driver):
         res = runner.Result()
         total = {}
-        self.max_groups = 600 if tier == "thorough" else 150
         for cf in sorted(glob.glob(os.path.join(core.ROOT, "corpus", "C14", "*.ops"))):
             save = self.work("corpus.out")
             lines = self._run([harness, "ops", cf], driver, save)
